@@ -1,6 +1,7 @@
 mod adapt;
 mod diff;
 mod harness;
+mod lintexp;
 mod props;
 mod run;
 mod walk;
